@@ -686,6 +686,12 @@ pub(crate) fn openat2<Fd: AsFd, P: AsRef<Path>>(
     // RESOLVE_IN_ROOT handles that correctly in a race-free way.
     let mut how = how.clone();
     how.flags |= libc::O_CLOEXEC as u64;
+    // Never let an opened file become our controlling terminal (as with
+    // openat). openat2(2) rejects O_PATH combined with flags that don't make
+    // sense for it, so only add it for real opens.
+    if how.flags & libc::O_PATH as u64 == 0 {
+        how.flags |= libc::O_NOCTTY as u64;
+    }
 
     // SAFETY: Obviously safe-to-use Linux syscall.
     let fd = unsafe {
